@@ -4,15 +4,17 @@
 
    The algorithm is ARGUMENT-driven (the implementation model in Bind.v is
    parameter-driven):
+     0. a keyword given twice (only possible through `**{...}`) fails before
+        the function is entered ("multiple values for keyword argument");
      1. the first min(n, #positional parameters) positional arguments fill
         the positional parameters left to right; surplus goes to *args, or
         the call fails ("takes k positional arguments but n were given");
-     2. every keyword argument, in order, goes to the positional-or-keyword
-        or keyword-only parameter of that name (a positional-only name is
-        not a keyword target); if that parameter already has a value the
-        call fails ("multiple values for argument"); a keyword that names no
-        such parameter goes to **kwargs, or the call fails ("unexpected
-        keyword argument");
+     2. every keyword argument goes to the positional-or-keyword or
+        keyword-only parameter of that name (a positional-only name is not a
+        keyword target); if that parameter already has a value the call
+        fails ("multiple values for argument"); a keyword that names no such
+        parameter goes to **kwargs, or the call fails ("unexpected keyword
+        argument");
      3. every parameter still empty takes its default, or the call fails
         ("missing required argument").
    Validated on every run against the interpreter itself (harness/c05.py
@@ -44,39 +46,36 @@ Fixpoint fill_positional (pp : list param) (i n : nat) : list (N * source) :=
 Definition kw_target (s : sig) (k : N) : bool :=
   existsb (fun p => is_kw_target (pkind p) && N.eqb (pname p) k) s.
 
-(* step 2: one keyword argument; state = (filled, names gone to **kwargs, reversed) *)
-Definition kw_step (s : sig) (st : option (list (N * source) * list N)) (k : N)
-  : option (list (N * source) * list N) :=
-  match st with
-  | None => None
-  | Some (filled, extra) =>
-      if kw_target s k then
-        match assoc k filled with
-        | Some _ => None                        (* multiple values for argument k *)
-        | None => Some ((k, SKw k) :: filled, extra)
-        end
-      else if has_kind VK s then
-        if memN k extra then None               (* cannot happen for distinct keywords *)
-        else Some (filled, k :: extra)
-      else None                                 (* unexpected keyword argument k *)
+(* step 2, one keyword argument k: may it be passed? *)
+Definition kw_ok (s : sig) (filled0 : list (N * source)) (k : N) : bool :=
+  if kw_target s k then
+    match assoc k filled0 with
+    | Some _ => false          (* multiple values for argument k *)
+    | None => true
+    end
+  else has_kind VK s.          (* else: unexpected keyword argument k *)
+
+(* step 3: where one parameter takes its value from *)
+Definition source_of (s : sig) (npos : nat) (kws : list N) (filled0 : list (N * source)) (p : param)
+  : option source :=
+  match pkind p with
+  | VP => Some (SVarPos (length (pos_params s)) (npos - length (pos_params s)))
+  | VK => Some (SVarKw (filter (fun k => negb (kw_target s k)) kws))
+  | _ =>
+      match assoc (pname p) filled0 with
+      | Some v => Some v
+      | None =>
+          if is_kw_target (pkind p) && memN (pname p) kws then Some (SKw (pname p))
+          else if pdefault p then Some SDefault
+          else None                                  (* missing required argument *)
+      end
   end.
 
-(* step 3 *)
-Fixpoint collect (s : sig) (filled : list (N * source)) (vp vk : source)
-  : option (list (N * source)) :=
+Fixpoint collect (f : param -> option source) (s : sig) : option (list (N * source)) :=
   match s with
   | [] => Some []
   | p :: rest =>
-      let me :=
-        match pkind p with
-        | VP => Some vp
-        | VK => Some vk
-        | _ => match assoc (pname p) filled with
-               | Some v => Some v
-               | None => if pdefault p then Some SDefault else None   (* missing required *)
-               end
-        end in
-      match me, collect rest filled vp vk with
+      match f p, collect f rest with
       | Some v, Some r => Some ((pname p, v) :: r)
       | _, _ => None
       end
@@ -84,13 +83,13 @@ Fixpoint collect (s : sig) (filled : list (N * source)) (vp vk : source)
 
 Definition py_bind_full (s : sig) (npos : nat) (kws : list N) : option (list (N * source)) :=
   let pp := pos_params s in
-  if (length pp <? npos) && negb (has_kind VP s) then None   (* too many positional arguments *)
+  if negb (names_nodup kws) then None                        (* step 0 *)
+  else if (length pp <? npos) && negb (has_kind VP s) then None   (* too many positional arguments *)
   else
-    match fold_left (kw_step s) kws (Some (fill_positional pp 0 npos, [])) with
-    | None => None
-    | Some (filled, extra) =>
-        collect s filled (SVarPos (length pp) (npos - length pp)) (SVarKw (rev extra))
-    end.
+    let filled0 := fill_positional pp 0 npos in
+    if forallb (kw_ok s filled0) kws
+    then collect (source_of s npos kws filled0) s
+    else None.
 
 Definition py_bind (s : sig) (npos : nat) (kws : list N) : bool :=
   match py_bind_full s npos kws with Some _ => true | None => false end.
